@@ -25,6 +25,9 @@ CLAIMED = {
     "C10": dict(
         text="Partial proof: completeness of each validation step of the model (symbol table, duplicate-parameter pass, interface rules, struct verifier): whatever satisfies the enforced rule is accepted by that step, for all inputs. The composition over the whole pipeline and the four backends is decided by running generated valid file sets and their declaration-order / file-placement variants through every backend and flag set, with the model evaluated on the same ASTs.",
         ref="7 (C10)", technique="Coq proofs of per-step completeness (partial) + exhaustive-by-generation acceptance runs over backends and flags"),
+    "C12": dict(
+        text="Theorems over the include-walk model (abstract file system without symbolic links, any finite include graph): the walk never exhausts its fuel (recursion depth bounded by the number of files), acceptance implies that every include of every reachable file resolves and parses and that no reachable file lies on a cycle of any length, and each file is loaded once. Resolution (first match over -I directories then the main file's directory; relative for paths with a directory part), the accept/reject verdict and the loaded set are compared with the real pipeline and with an independently written reachability Spec on generated directory trees every run. The converse (rejection only when the Spec says so) is decided by that comparison, not proved.",
+        ref="7 (C12)", technique="Coq proof (termination, soundness of acceptance, load-once) + differential correspondence on real directory trees + independent reachability Spec"),
 }
 NOTE = ("Trusted: Coq 8.16.1 kernel (vm_compute used; no native_compute), no axioms; lib/translate.py; the harness crate; "
         "python driver and scrapers. Modelled rather than verified: all of /repo (theorems are about coq/theories; the tie is "
